@@ -15,10 +15,10 @@ What is atomic and why
   the flag).
 
 `auth` is a ghost variable: "a successful unlock happened since the last lock / timeout / restart".
-`Variant` selects the ProcWalletSetPasswd that is modelled: the code as it is (`current`), the same with
-the old-password check moved in front of the temporary unlock (`verifyFirstV`), and without any temporary
-unlock (`repaired`: the seed is read with the store-level `GetSeed(db, password)`, which does not look at
-the flag).
+`Variant` selects the ProcWalletSetPasswd that is modelled: the code as it is (`code`: no temporary unlock, the
+seed is read with the store-level `GetSeed(db, password)`, which does not look at the flag), and two older
+variants kept for regression witnesses: the code before /repo fd9f097 (`oldCode`: temporary unlock before the
+old-password check) and that code with the check moved in front of the unlock (`oldVerifyFirst`).
 -/
 namespace C38
 
@@ -27,10 +27,13 @@ structure Variant where
   tempUnlock : Bool
   deriving DecidableEq, Repr
 
-/-- wallet_proc.go as it is: load flag, CAS(1→0), defer CAS(0→temp), *then* verify the old password. -/
-def current : Variant := ⟨false, true⟩
-def verifyFirstV : Variant := ⟨true, true⟩
-def repaired : Variant := ⟨true, false⟩
+/-- wallet_proc.go as it is (since /repo fd9f097): verify the old password, read the seed straight from the store,
+write the batch; the lock flag is never touched. -/
+def code : Variant := ⟨true, false⟩
+/-- the code before fd9f097: load flag, CAS(1→0), defer CAS(0→temp), *then* verify the old password. -/
+def oldCode : Variant := ⟨false, true⟩
+/-- a repair that was considered and rejected: the old code with the password check moved in front of the unlock. -/
+def oldVerifyFirst : Variant := ⟨true, true⟩
 
 /-- micro-operations of ProcWalletSetPasswd that read or write shared state. -/
 inductive Mop where
